@@ -220,6 +220,9 @@ class Repo:
                     src_mod = self.modules.get(src_name)
                     if src_mod:
                         mod.runtime_names |= {n for n in src_mod.runtime_names if not n.startswith("_")}
+        # private names are read under the names of the confirmed tree (canon.py): a consistent private rename is not a change
+        from . import canon
+        self.private_renames = canon.apply({m.name: m.tree for m in self.modules.values() if m.name.startswith("photon_weave")})
         for mod in self.modules.values():
             self._index_module(mod)
         from .inline import Inliner
